@@ -243,6 +243,11 @@ class FilterFn:
 
 FALSY = {'none': None, 'zero': 0, 'empty': '', 'emptylist': [], 'emptydict': {},
          'false': False}
+# examples that ARE exception objects (errors kept as values): legal examples
+# that error-forwarding code tends to mistake for a failure
+EXC_VALUES = {'excobj': lambda: KeyError('kept as a value'),
+              'stopiterobj': lambda: StopIteration(),
+              'filterobj': lambda: FilterException('kept as a value')}
 
 
 class FalsyFn:
@@ -256,6 +261,8 @@ class FalsyFn:
         ctx, ids = _enter(self.stage, x)
         ctx.event('ret', self.stage, ids)
         if ids and ids[0] % self.mod == self.rem:
+            if self.val in EXC_VALUES:
+                return EXC_VALUES[self.val]()
             v = FALSY[self.val]
             return type(v)() if isinstance(v, (list, dict)) else v
         return x
@@ -512,6 +519,8 @@ def norm(v):
         return ['nd'] + v.tolist()
     if isinstance(v, numbers.Integral):
         return int(v)
+    if isinstance(v, BaseException):
+        return ['__exception_object__', type(v).__name__, norm(v.args)]
     return v
 
 
